@@ -350,5 +350,8 @@ RULES = [
     ("C17.nonblocking", rule_nonblocking),
     ("C17.retry", rule_retry),
     ("C17.casretry", rule_casretry),
+    # "a correct result or WOULDBLOCK": the decision tables of the non-blocking iteration / dequeue entry points
+    ("C17.result", lambda c, r: pat.shared(__import__("sa.rules.c11", fromlist=["x"]).rule_iter, "C17.result", lambda x: "nonblocking" in x["instance"] or x["status"] != "pass")(c, r)),
+    ("C17.result", lambda c, r: pat.shared(__import__("sa.rules.c10", fromlist=["x"]).rule_iter, "C17.result", lambda x: "nonblocking" in x["instance"] or x["status"] != "pass")(c, r)),
 ]
 FLOORS = {}
